@@ -52,6 +52,10 @@ func TestVerif(t *testing.T) {
 				vmodel.CheckSetsLong(c, api, func(i int) string { return fmt.Sprintf("common-prefix-%05d", i) })
 				return
 			}
+			if c.Param("family", "") == "histories" {
+				vmodel.CheckSetHistories(c, api)
+				return
+			}
 			vmodel.CheckSets(c, api)
 		},
 	})
